@@ -65,8 +65,9 @@ func (qp *QueryProcessor) ProcessQuery(query string) *ProcessedQuery {
 	cleaned := qp.cleanQuery(query)
 	pq.Cleaned = cleaned
 
-	// Extract words
-	words := strings.Fields(strings.ToLower(cleaned))
+	// Extract words (lower-case before cleaning so that letters whose lower-case
+	// form is ASCII, such as U+212A KELVIN SIGN, are kept like their ASCII spelling)
+	words := strings.Fields(qp.cleanQuery(strings.ToLower(query)))
 
 	// Detect context clues for better intent detection
 	queryLower := strings.ToLower(query)
